@@ -104,25 +104,8 @@ theorem C07_src_add_bitmap_link (φ : D → Elem) (ps : CoderState.Self D V) (s 
                         bitmap_links := Py.dictSetItem ps.bitmap_links (ps.decoded_descriptors.length : Nat) i } ∧
         Rep φ ps' s2.regs ∧ s2.data = s.data
     | .error e, .error e' => excClass e = e'
-    | _, _ => False := by
-  obtain ⟨hwf, nr, hr, href⟩ := h
-  have hit : s.regs.bmIter = ps.next_bitmapped_descriptor.map (pairsOf φ) := by rw [hr]; rfl
-  cases hn : ps.next_bitmapped_descriptor with
-  | none =>
-    simp [CoderState.add_bitmap_link, nextBitmapped, hn, hit, Py.callNext, excClass, bind, Except.bind]
-  | some l =>
-    cases l with
-    | nil =>
-      simp [CoderState.add_bitmap_link, nextBitmapped, hn, hit, Py.callNext, excClass, bind, Except.bind, pairsOf]
-    | cons p rest =>
-      obtain ⟨i, d⟩ := p
-      simp only [CoderState.add_bitmap_link, nextBitmapped, hn, hit, Py.callNext, bind, Except.bind, pure, Except.pure,
-        pairsOf, Option.map, List.map]
-      refine ⟨i, d, rest, rfl, rfl, rfl, rfl, ⟨?_, nr, ?_, href⟩, rfl⟩
-      · exact hwf
-      · simp only [St.setRegs]
-        rw [hr]
-        simp [regsOf, pairsOf]
+    | _, _ => False :=
+  add_bitmap_link_corr φ ps s h
 
 /-- the hypothesis is satisfiable, with a bitmapped descriptor waiting -/
 example : ∃ (ps : CoderState.Self Nat Nat) (s : St), Rep (fun _ => default) ps s.regs ∧
